@@ -1656,7 +1656,6 @@ func (f *Frame) goroutineOwnObject(c *cursor, g *ssa.Go) {
 	if !ok {
 		return
 	}
-	ef := e.P.effectsOf(callee, e.U)
 	var walk func(ref Term, t types.Type)
 	walk = func(ref Term, t types.Type) {
 		st := t.Underlying().(*types.Struct)
@@ -1669,8 +1668,8 @@ func (f *Frame) goroutineOwnObject(c *cursor, g *ssa.Go) {
 				continue
 			}
 			fam := fieldFamily(t, i)
-			if _, written := ef.Fams[fam]; !written && !ef.All {
-				continue
+			if !f.fieldWrittenInPackage(fam) {
+				continue // no function of the package assigns this field after construction
 			}
 			fs := e.structFieldSort(t, i)
 			arr := e.family(c.st, fam, arraySort(SInt, fs))
@@ -1680,4 +1679,19 @@ func (f *Frame) goroutineOwnObject(c *cursor, g *ssa.Go) {
 		}
 	}
 	walk(ref, stT)
+}
+
+// fieldWrittenInPackage: some function of the program stores to the field
+// family outside the construction of a fresh object.
+func (f *Frame) fieldWrittenInPackage(fam string) bool {
+	P := f.e.P
+	if P.writtenFams == nil {
+		P.writtenFams = map[string]bool{}
+		for _, fn := range P.Funcs {
+			for k := range P.effectsOf(fn, f.e.U).Fams {
+				P.writtenFams[k] = true
+			}
+		}
+	}
+	return P.writtenFams[fam]
 }
